@@ -244,6 +244,40 @@ func init() {
 		Old: "\tif prev.IsSpatial() {\n\t\tif !prev.Geo().Empty() {\n\t\t\tc.indexDelete(prev)\n\t\t}\n\t\tc.objects--", New: "\tif prev.IsSpatial() {\n\t\tc.indexDelete(prev)\n\t\tc.objects--",
 		Why: "the redundant outer emptiness test removed (the helper tests it)"})
 
+	// ---- R11 / R14 ---------------------------------------------------------
+	mutant(&Mutant{Name: "scanrange-skip-off-by-one", Props: []string{"C11"}, File: fColl,
+		Old: "\titer := func(_ string, o *object.Object) bool {\n\t\tcount++\n\t\tif count <= offset {\n\t\t\treturn true\n\t\t}\n\t\tnextStep(count, cursor, deadline)\n\t\tif !desc {",
+		New: "\titer := func(_ string, o *object.Object) bool {\n\t\tcount++\n\t\tif count < offset {\n\t\t\treturn true\n\t\t}\n\t\tnextStep(count, cursor, deadline)\n\t\tif !desc {",
+		Expect: "R11.cursor-protocol", Key: "ScanRange", Why: "the first element of every later page repeats the last of the previous one"})
+	mutant(&Mutant{Name: "nearby-step-after-iter", Props: []string{"C11"}, File: fColl,
+		Old: "\t\t\tnextStep(count, cursor, deadline)\n\t\t\talive = iter(o, dist)\n\t\t\treturn alive", New: "\t\t\talive = iter(o, dist)\n\t\t\tnextStep(count, cursor, deadline)\n\t\t\treturn alive",
+		Expect: "R11.cursor-protocol", Key: "Nearby", Why: "the element that hits the limit is not counted in the cursor"})
+	mutant(&Mutant{Name: "searchvalues-no-prestep", Props: []string{"C11"}, File: fColl,
+		Old: "func (c *Collection) SearchValues(\n\tdesc bool,\n\tcursor Cursor,\n\tdeadline *deadline.Deadline,\n\titerator func(o *object.Object) bool,\n) bool {\n\tvar keepon = true\n\tvar count uint64\n\tvar offset uint64\n\tif cursor != nil {\n\t\toffset = cursor.Offset()\n\t\tcursor.Step(offset)\n\t}",
+		New: "func (c *Collection) SearchValues(\n\tdesc bool,\n\tcursor Cursor,\n\tdeadline *deadline.Deadline,\n\titerator func(o *object.Object) bool,\n) bool {\n\tvar keepon = true\n\tvar count uint64\n\tvar offset uint64\n\tif cursor != nil {\n\t\toffset = cursor.Offset()\n\t}",
+		Expect: "R11.cursor-protocol", Key: "SearchValues/offset-and-step", Why: "the cursor of the second page restarts from the page size"})
+	mutant(&Mutant{Name: "hitlimit-early", Props: []string{"C11"}, File: "internal/server/scanner.go",
+		Old: "\tif sw.numberItems == sw.limit {\n\t\tsw.hitLimit = true\n\t\treturn false, nil\n\t}", New: "\tif sw.numberItems == sw.limit {\n\t\tsw.hitLimit = true\n\t}",
+		Expect: "R11.cursor-report", Key: "hitLimit-edge", Why: "iteration continues past the limit while the cursor says it stopped"})
+	mutant(&Mutant{Name: "writefoot-cursor-always", Props: []string{"C11"}, File: "internal/server/scanner.go",
+		Old: "\tcursor := sw.numberIters\n\tif !sw.hitLimit {\n\t\tcursor = 0\n\t}", New: "\tcursor := sw.numberIters\n\tif !sw.hitLimit && sw.numberItems == 0 {\n\t\tcursor = 0\n\t}",
+		Expect: "R11.cursor-report", Key: "writeFoot-cursor", Why: "a non-zero cursor although nothing remains"})
+	mutant(&Mutant{Name: "fset-drops-deadline", Props: []string{"C14"}, File: fCrud,
+		Old: "obj := object.New(id, o.Geo(), o.Expires(), ofields)", New: "obj := object.New(id, o.Geo(), 0, ofields)",
+		Expect: "R14.deadline-propagation", Key: "cmdFSET", Why: "FSET silently makes the object immortal"})
+	mutant(&Mutant{Name: "persist-keeps-deadline", Props: []string{"C14"}, File: fCrud,
+		Old: "obj = object.New(id, o.Geo(), 0, o.Fields())", New: "obj = object.New(id, o.Geo(), o.Expires(), o.Fields())",
+		Expect: "R14.deadline-propagation", Key: "cmdPERSIST", Why: "PERSIST answers OK but the object still expires"})
+	mutant(&Mutant{Name: "sweeper-continues", Props: []string{"C14"}, File: fExpire,
+		Old: "\t\t\tif nano < o.Expires() {\n\t\t\t\treturn false\n\t\t\t}", New: "\t\t\tif nano < o.Expires() {\n\t\t\t\treturn true\n\t\t\t}\n\t\t\tif len(msgs) > 1000000 {\n\t\t\t\treturn false\n\t\t\t}",
+		Expect: "R14.sweep-stop", Key: "backgroundExpireObjects", Why: "the early stop is gone (not wrong by itself, but the rule pins the protocol)"})
+	mutant(&Mutant{Name: "sweeper-wrong-direction", Props: []string{"C14"}, File: fExpire,
+		Old: "\t\tif h.expires.After(now) {\n\t\t\treturn false\n\t\t}", New: "\t\tif now.After(h.expires) {\n\t\t\treturn false\n\t\t}",
+		Expect: "R14.sweep-stop", Key: "backgroundExpireHooks", Why: "hooks expire early and due hooks stay"})
+	mutant(&Mutant{Name: "byexpires-id-first", Props: []string{"C14"}, File: fColl,
+		Old: "func byExpires(a, b *object.Object) bool {\n\tif a.Expires() < b.Expires() {", New: "func byExpires(a, b *object.Object) bool {\n\tif a.ID() < b.ID() {\n\t\treturn true\n\t}\n\tif a.Expires() < b.Expires() {",
+		Expect: "R14.sweep-stop", Key: "byExpires-deadline-first", Why: "the expiry index is no longer ordered by deadline"})
+
 	// ---- neutral variants --------------------------------------------------
 	mutant(&Mutant{Name: "neutral-rename-write-flag", Props: []string{"C03", "C07", "C15"}, Neutral: true, File: fScripts,
 		Old: "func (s *Server) luaTile38NonAtomic(msg *Message) (resp.Value, error) {\n\tvar write bool\n", New: "func (s *Server) luaTile38NonAtomic(msg *Message) (resp.Value, error) {\n\tvar write bool\n\t_ = \"neutral\"\n",
